@@ -6,8 +6,8 @@ package main
 
 import (
 	"go/token"
-	"math/big"
 	"go/types"
+	"math/big"
 	"sort"
 
 	"golang.org/x/tools/go/ssa"
